@@ -10,7 +10,7 @@ import itertools
 import json
 import os
 
-from ovsa import absint, effects
+from ovsa import absint, effects, errflow
 from ovsa.absint import INT, NULL, PTR, TOP
 from ovsa.facts import VERIF
 
@@ -38,6 +38,7 @@ def unk_ptr(prog):
 
 def run(ctx):
     prog = ctx.prog
+    reg = errflow.Registry(prog)
     sp = spec()
     eff = effects.Effects(prog)
     E = prog.enum_val
@@ -234,8 +235,18 @@ def run(ctx):
                       "%s task creation '%s' passes flags %s, documented %s (%d)" %
                       (model, v, got, "|".join(msp["create_values"][v]), want))
         # R7.4 mapping and body-id rule
-        uts = prog.fn("update_task_state", evfile)
         opmap = {"x": "task_execute", "e": "task_end", "p": "task_pause", "r": "task_resume"}
+        # the function that calls task_execute/... ; entered through the nearest caller whose only
+        # parameter is the emulator, so that extra parameters of the static helpers do not matter
+        cands = [g for g in prog.fns_in(evfile) if any(g.all_calls_syntactic(n_) for n_ in opmap.values())]
+        ctx.need(len(cands) >= 1, "%s: no function calls task_execute/end/pause/resume" % evfile)
+        uts = cands[0]
+        hops = 0
+        while [p_["ctype"] for p_ in uts.params] != ["struct emu *"] and hops < 4:
+            cs_ = {c.key: c for (c, n_) in reg.call_sites(uts) if c.file == evfile}
+            ctx.need(len(cs_) == 1, "%s: cannot find a stable entry above %s" % (evfile, uts.name))
+            uts = list(cs_.values())[0]
+            hops += 1
         for v, want_fn in opmap.items():
             for par in ((0, 1) if msp["body_id_rule"] else (0,)):
                 for bid in ((0, 1, 2) if msp["body_id_rule"] else (0,)):
